@@ -1,14 +1,14 @@
-\* thorough exhaustive run: 6 events, four profiles
+\* thorough exhaustive run: 8 events, two ids with twins, four profiles
 SPECIFICATION Spec
 CONSTANTS
   NT = 4
   Profiles <- ProfilesT
   Variants = {"g", "b"}
-  BadIds = {1}
+  BadIds = {1, 3}
   LO = 1
   HI = 1
   NOW = 50
-  MaxEv = 6
+  MaxEv = 8
   MaxLen = 2
   FixSig = TRUE
   EmitOn = FALSE
